@@ -6,7 +6,7 @@ import io
 import json
 
 from .. import mapgen, mapsym
-from ..coqlit import Err, clist, cnat
+from ..coqlit import Err, clist, cnat, cstr
 
 PROP = "C01"
 RUN = "Run_C01x"
@@ -35,7 +35,9 @@ TRUSTED = ["Model/MapRun.v mirrors pipefunc/map/_run.py (sequential path) by han
 
 def emit_case(c) -> str:
     if c.get("kind") == "auto":
-        return "(CAuto %s %s)" % (mapgen.request_lit(c), clist([cnat(i) for i in c["order"]]))
+        aslist = [k for k, v in c["inputs"] if isinstance(v, dict) and v.get("as") == "list"]
+        return "(CAuto %s %s %s)" % (mapgen.request_lit(c), clist([cnat(i) for i in c["order"]]),
+                                     clist([cstr(k) for k in aslist]))
     return "(CReq %s)" % mapgen.request_lit(c)
 
 
@@ -110,6 +112,40 @@ def _conflict(c, rng):
     return c
 
 
+def _inputs_variant(c, rng):
+    """Variants of the INPUTS of a request (kind "auto": construction + input validation + run are modelled):
+    non-conforming ones (a missing root argument, a surplus input, an input for a bound parameter, a 2-d input passed
+    as nested lists: ValueError before anything runs) and conforming ones that exercise the resolution order of
+    _func_kwargs (an input supplied for a parameter that also has a default: the input wins)."""
+    import copy
+    c = copy.deepcopy(c)
+    if c.get("kind") != "auto":
+        c["kind"] = "auto"
+        c["order"] = list(range(len(c["funcs"])))
+        if rng.random() < 0.3:
+            rng.shuffle(c["order"])
+    arrays2 = [kv for kv in c["inputs"] if isinstance(kv[1], dict) and len(kv[1]["sh"]) >= 2]
+    bound = [b[0] for f in c["funcs"] for b in f.get("bound") or []]
+    dflt = [d[0] for f in c["funcs"] for d in f.get("defaults") or []]
+    kinds = ["missing", "extra"] + (["list2d"] * 2 if arrays2 else []) + (["bound_supplied"] * 2 if bound else []) \
+        + (["default_supplied"] * 3 if dflt else [])
+    k = rng.choice(kinds)
+    if k == "missing" and c["inputs"]:
+        c["inputs"].pop(rng.randrange(len(c["inputs"])))
+    elif k == "extra":
+        c["inputs"].append(["zz_extra", "ZZ"])
+    elif k == "list2d":
+        rng.choice(arrays2)[1]["as"] = "list"
+    elif k == "bound_supplied":
+        p = rng.choice(bound)
+        c["inputs"].append([p, p.upper() + "inp"])
+    elif k == "default_supplied":
+        p = rng.choice(dflt)
+        c["inputs"].append([p, p.upper() + "inp"])
+    c["variant"] = k
+    return c
+
+
 def generate(rng, tier, mult):
     n = (220 if tier == "quick" else 4000) * mult
     n_auto = (110 if tier == "quick" else 2000) * mult
@@ -126,9 +162,19 @@ def generate(rng, tier, mult):
         u = mapgen.to_user_level(c, rng)
         if u is None:
             continue
-        if rng.random() < 0.12:
+        if rng.random() < 0.2:
             u = _conflict(u, rng) or u
         out.append(u)
+        k += 1
+    n_var = (60 if tier == "quick" else 1200) * mult
+    k = 0
+    while k < n_var:
+        c = mapgen.gen_request(rng, allow_zero_ext=True)
+        if mapgen.request_size(c) > 40:
+            continue
+        if rng.random() < 0.3:
+            c = mapgen.to_user_level(c, rng) or c
+        out.append(_inputs_variant(c, rng))
         k += 1
     return out
 
@@ -158,7 +204,8 @@ def distribution(c):
         sp = f.get("spec")
         return bool(sp and sp["i"] and not any(a is not None for _, ax in sp["i"] for a in ax))
     return {"nfuncs": len(c["funcs"]), "kinds": "+".join(kinds), "storage": c.get("storage"),
-            "case": ("auto-malformed" if c.get("malformed") else "auto") if c.get("kind") == "auto" else "explicit",
+            "case": ("inputs-" + c["variant"] if c.get("variant") else
+                     "auto-malformed" if c.get("malformed") else "auto") if c.get("kind") == "auto" else "explicit",
             "auto_tuple": any(f.get("stripped") and len(f["outs"]) > 1 for f in c["funcs"]),
             "auto_colon": any(f.get("spec") and any(n in {o for g in c["funcs"] if g.get("stripped") for o in g["outs"]}
                                                     and None in ax for n, ax in f["spec"]["i"]) for f in c["funcs"]),
